@@ -141,6 +141,37 @@ theorem set_ext_bytes (e : Enc) (b x f : Bytes) (h : fileName e b = some f) :
     exact List.take_left' rfl
   rw [htake]
 
+/-- the same with the token decomposition made explicit (used by Props/C14) -/
+theorem set_ext_tokens (e : Enc) (b x f : Bytes) (h : fileName e b = some f) :
+    ∃ r j st, (e.new b).toks = r ++ [.seg f] ++ j ∧ fileStem e b = some st ∧
+      setExtension e b x = ((e.new b).preBytes ++ untoks r ++ st ++ (if x = [] then [] else DOT :: x), true) := by
+  obtain ⟨r, j, hts, hjunk, hsb⟩ := fileName_tokens e b f h
+  obtain ⟨st, rest, hst, hf, hrest⟩ := rsplitDot_stem_prefix f
+  have hstem : fileStem e b = some st := by simp only [fileStem, h]; exact hst
+  have hrem := new_remaining e b
+  have hcut0 : lastCompEnd e b = ((e.new b).preBytes ++ untoks r ++ f).length := by
+    unfold lastCompEnd
+    simp only [hsb, C09.untoks_append, untoks, Tok.bytes, List.append_nil, List.length_append]
+    omega
+  simp only [PState.remaining] at hrem
+  rw [hts, C09.untoks_append, C09.untoks_append] at hrem
+  simp only [untoks, Tok.bytes, List.append_nil] at hrem
+  refine ⟨r, j, st, hts, hstem, ?_⟩
+  generalize (e.new b).preBytes = P at hrem hcut0 ⊢
+  have hb : b = P ++ untoks r ++ f ++ untoks j := by
+    rw [← hrem]; simp [List.append_assoc]
+  unfold setExtension
+  simp only [h, hstem]
+  have hcut : lastCompEnd e b - f.length + st.length = (P ++ untoks r ++ st).length := by
+    rw [hcut0]; simp only [List.length_append]; omega
+  rw [hcut]
+  have htake : b.take (P ++ untoks r ++ st).length = P ++ untoks r ++ st := by
+    have hb' : b = (P ++ untoks r ++ st) ++ (rest ++ untoks j) := by
+      rw [hb, hf]; simp [List.append_assoc]
+    conv => lhs; rw [hb']
+    exact List.take_left' rfl
+  rw [htake]
+
 /-- The cut made by `set_extension` is followed, in the old buffer, by a dot, by a token that
 is junk (a separator, or a `.` segment) or by nothing: never in the middle of a name, hence
 on a character boundary of every valid UTF-8 buffer (the following byte is ASCII). -/
